@@ -308,4 +308,45 @@ example : Ref.read T (renderRule (Aa.Parse.linkRule false false true true (S "/e
     = some (mkR "link" { audit := false, deny := false, owner := true } [.b true, .b true, .s (S "/etc/a*"), .s (S "/var/lib/b")]) :=
   C12_link_all false false true true _ _ (by decide +kernel) (by decide +kernel) (by decide +kernel) (by decide +kernel)
 
+/-! ## The two readers agree
+
+The library's own parser (`parseCommaRules` + `newRules`, the model tied to `aa.ParseRules`) and the reference reader written
+from apparmor.d(5) are independent programs; on the printed text of these rule families they read the same rule. -/
+
+/-- link rules: one rule `r` is what the library reads back and what the reference reader finds -/
+theorem C12_readers_agree_link (audit deny owner subset : Bool) (a b : Text)
+    (hca : Aa.Parse.CapW a) (ha : Ref.isPathTok a = true) (hp : Aa.Parse.PathHead a)
+    (hcb : Aa.Parse.CapW b) (hb : Ref.isPathTok b = true) :
+    ∃ r, (Aa.Parse.parseCommaRules false (renderRule (Aa.Parse.linkRule audit deny owner subset a b) (padOf []) ++ S "\n")).bind
+          (Aa.Parse.newRules T) = .ok [r] ∧
+        Ref.read T (renderRule (Aa.Parse.linkRule audit deny owner subset a b) (padOf [])) = some r ∧
+        r = Aa.Parse.linkRule audit deny owner subset a b :=
+  ⟨_, Aa.Parse.parse_link T audit deny owner subset a b hca hp hcb,
+    (C12_link_all audit deny owner subset a b hca ha hcb hb).trans (by cases deny <;> rfl), by cases deny <;> rfl⟩
+
+/-- change_profile rules -/
+theorem C12_readers_agree_change_profile (audit deny : Bool) (m e t : Text)
+    (hm : m = [] ∨ m ∈ reqValues T "change_profile" "mode") (he : Aa.Parse.CapW e) (hp : Ref.isPathTok e = true)
+    (harrow : e ≠ S "->") (ht : Aa.Parse.CapW t) :
+    ∃ r, (Aa.Parse.parseCommaRules false (renderRule (Aa.Parse.cpRule audit deny m e t) (padOf []) ++ S "\n")).bind
+          (Aa.Parse.newRules T) = .ok [r] ∧
+        Ref.read T (renderRule (Aa.Parse.cpRule audit deny m e t) (padOf [])) = some r ∧
+        r = Aa.Parse.cpRule audit deny m e t := by
+  have hne : (reqValues T "change_profile" "mode").contains e = false := by
+    cases hc : (reqValues T "change_profile" "mode").contains e with
+    | false => rfl
+    | true =>
+      have := List.all_eq_true.mp cp_modes.2 e (by simpa using hc)
+      simp [hp] at this
+  exact ⟨_, Aa.Parse.parse_cp T audit deny m e t
+      (hm.elim Or.inl (fun h => Or.inr ⟨cp_modes.1 m h, by simpa using h⟩)) he hne harrow ht,
+    (C12_change_profile_all audit deny m e t hm he hp ht).trans (by cases deny <;> rfl), by cases deny <;> rfl⟩
+
+/-- rlimit rules -/
+theorem C12_readers_agree_rlimit (k v : Text) (hk : k ∈ reqValues T "rlimit" "keys") (hv : Ref.rlimitValueOk v = true) :
+    ∃ r, (Aa.Parse.parseCommaRules false (renderRule (Aa.Parse.rlimitRule k v) (padOf []) ++ S "\n")).bind
+          (Aa.Parse.newRules T) = .ok [r] ∧
+        Ref.read T (renderRule (Aa.Parse.rlimitRule k v) (padOf [])) = some r ∧ r = Aa.Parse.rlimitRule k v :=
+  ⟨_, Aa.Parse.parse_rlimit T k v (rlimit_key_words k hk) (Ref.rlimitValueOk_capW v hv), C12_rlimit_all k v hk hv, rfl⟩
+
 end C12
